@@ -153,6 +153,103 @@ fn release_after_abandoned_recv(ctx: &mut Ctx) {
     }
 }
 
+
+/// REP: a request has been handed out and its reply is owed; a further recv is started, polled k
+/// times (with or without a second request arriving meanwhile) and abandoned. The owed reply must
+/// still be accepted and reach the requester behind its envelope - the abandoned call changes nothing.
+fn rep_owed_reply(ctx: &mut Ctx) {
+    world::swarm(ctx, SwarmOpts::default());
+    let k = ctx.plan(4) as u32;
+    let depth = ctx.plan(3) as usize;
+    let second_arrives = ctx.plan_bool();
+    let viol: Rc<RefCell<Vec<(&'static str, String)>>> = Rc::new(RefCell::new(Vec::new()));
+    let done = Rc::new(RefCell::new(false));
+    let (vl, dn) = (viol.clone(), done.clone());
+    rt::task::spawn_local("app", async move {
+        let mut rep = RepSocket::new();
+        let ep = rep.bind("tcp://127.0.0.1:0").await.expect("bind").to_string();
+        let mut a = RawPeer::connect(&ep).expect("connect");
+        let _ = a.hello("DEALER", None).await;
+        let prefix: Vec<Vec<u8>> = (0..depth).map(|i| vec![b'i', i as u8 + 1]).collect();
+        let mut q1 = prefix.clone();
+        q1.push(vec![]);
+        q1.extend(tagged(1, 0, &[3]));
+        let _ = a.send_msg(&q1).await;
+        match rep.recv().await {
+            Ok(m) if tag_of(&from_zmq(&m)) == Some((1, 0)) => {}
+            other => {
+                vl.borrow_mut().push(("request_not_delivered", format!("first request: {:?}", other.map(|m| show_msg(&from_zmq(&m))))));
+                return world::park().await;
+            }
+        }
+        // another client, whose request may or may not arrive during the abandoned call
+        let mut b = RawPeer::connect(&ep).expect("connect");
+        let _ = b.hello("REQ", None).await;
+        rt::task::idle().await;
+        if second_arrives {
+            let mut q2 = vec![vec![]];
+            q2.extend(tagged(2, 0, &[3]));
+            let _ = b.send_msg(&q2).await;
+        }
+        let abandoned = rt::future::or_idle(rt::future::poll_budget(rep.recv(), k)).await.flatten();
+        if let Some(Ok(m)) = &abandoned {
+            // the call completed after all (the second request was there): that is a received request,
+            // the lock-step now owes a reply to B, not to A - nothing to judge about A here
+            let _ = m;
+            *dn.borrow_mut() = true;
+            return world::park().await;
+        }
+        rt::count("probe_recv_abandoned_with_reply_owed");
+        let reply = tagged(7, 0, &[4]);
+        match rep.send(to_zmq(&reply)).await {
+            Ok(()) => {}
+            Err(e) => {
+                vl.borrow_mut().push(("owed_reply_refused_after_abandoned_recv", format!("REP: a request was received, a further recv was polled {k} time(s) and abandoned, and the reply that was owed all along was refused: {e}")));
+                return world::park().await;
+            }
+        }
+        rt::task::idle().await;
+        let mut expect = prefix.clone();
+        expect.push(vec![]);
+        expect.extend(reply.iter().cloned());
+        let got = a.inbound().messages();
+        if got.len() != 1 || got[0] != expect {
+            vl.borrow_mut().push(("owed_reply_wrong_after_abandoned_recv", format!("REP: the reply owed to the first requester arrived on its connection as {:?}, expected {}", got.iter().map(|m| show_msg(m)).collect::<Vec<_>>(), show_msg(&expect))));
+        }
+        if !b.inbound().messages().is_empty() {
+            vl.borrow_mut().push(("reply_leaked_to_other_connection", "REP: the other client received something although it was never answered".into()));
+        }
+        // and the second request (if any) is still there for the next recv
+        if second_arrives {
+            match rt::future::or_idle(rep.recv()).await {
+                Some(Ok(m)) if tag_of(&from_zmq(&m)) == Some((2, 0)) => {}
+                other => vl.borrow_mut().push(("lost_or_reordered", format!("REP: the second client's request was not delivered after the abandoned recv: {:?}", other.map(|r| r.map(|m| show_msg(&from_zmq(&m))).map_err(|e| e.to_string()))))),
+            }
+        }
+        *dn.borrow_mut() = true;
+        world::park().await;
+        drop(rep);
+        drop(a);
+        drop(b);
+    });
+    let end = ctx.sim.run(300_000);
+    if end == rt::RunEnd::Budget {
+        ctx.violation("no_quiescence", "REP owed reply: no quiescence".into());
+    }
+    ctx.check_panics();
+    for (c, d) in viol.borrow().clone() {
+        ctx.violation(c, d);
+    }
+    if *done.borrow() {
+        ctx.nontrivial();
+    } else if end == rt::RunEnd::Quiescent && ctx.sim.rt.panics.borrow().is_empty() && viol.borrow().is_empty() {
+        ctx.violation("stuck", "REP owed reply: the scenario never completed".into());
+    }
+    if ctx.want_sample {
+        ctx.out.sample = Some(format!("REP: request with {depth} identity frames received, recv abandoned after {k} polls (second request arrives: {second_arrives}), then the owed reply"));
+    }
+}
+
 #[derive(Default)]
 struct ReqLog {
     events: Vec<String>,
@@ -319,11 +416,12 @@ pub fn def() -> PropDef {
     PropDef {
         id: "C14",
         level: "fault_enumeration",
-        rule: "cancel_world: case index selects socket type (idx mod 6) and fault mix; the application wraps up to 24 recv calls in 'poll k times then drop' with k in 0..5 drawn per call while messages arrive under random segmentation, so cancellation points fall at arbitrary byte-arrival positions; release_after_abandoned_recv: socket type (6) x poll budget 1..3 x EOF consumed before or inside the abandoned call x 1..3 subscriptions of 1 B .. 70 kB (SUB): a peer closes, another peer stops reading right after the handshake so that whatever the socket writes on admission blocks, a recv is abandoned, the second peer resumes; at quiescence the closed connection must be released, both peers' messages delivered once, subscribe() must succeed; req_abandon: 1..3 rounds of send / abandoned recv (k in 0..4) / out-of-turn send / owed recv against a scripted REP with random reply delay; non-trivial = at least one recv future was actually dropped while pending; distinct = distinct (plan, schedule, transport) hashes",
+        rule: "cancel_world: case index selects socket type (idx mod 6) and fault mix; the application wraps up to 24 recv calls in 'poll k times then drop' with k in 0..5 drawn per call while messages arrive under random segmentation, so cancellation points fall at arbitrary byte-arrival positions; release_after_abandoned_recv: socket type (6) x poll budget 1..3 x EOF consumed before or inside the abandoned call x 1..3 subscriptions of 1 B .. 70 kB (SUB): a peer closes, another peer stops reading right after the handshake so that whatever the socket writes on admission blocks, a recv is abandoned, the second peer resumes; at quiescence the closed connection must be released, both peers' messages delivered once, subscribe() must succeed; rep_owed_reply: REP has handed out a request (0..2 identity frames), a further recv is polled 0..3 times and abandoned (a second client's request arriving meanwhile or not), then the owed reply must be accepted, reach the first requester behind its envelope, and the second request must still be delivered; req_abandon: 1..3 rounds of send / abandoned recv (k in 0..4) / out-of-turn send / owed recv against a scripted REP with random reply delay; non-trivial = at least one recv future was actually dropped while pending; distinct = distinct (plan, schedule, transport) hashes",
         assumptions: &["the cancellation fault is 'drop the recv future after k polls', which is what select!, timeouts and proxy() do", "enumeration is over socket type x poll budget 0..5; byte-arrival positions are sampled by the transport knobs, not enumerated"],
         strata: vec![
             Stratum { name: "cancel_world", quick: 120_000, thorough: (2_000_000) * 3, exhaustive: (false, false), run: cancel_world, what: "PULL/SUB/DEALER/ROUTER/REP/XPUB with abandoned recvs; C05 oracle" },
             Stratum { name: "release_after_abandoned_recv", quick: 40_000, thorough: 2_000_000, exhaustive: (false, false), run: release_after_abandoned_recv, what: "a peer closes, another peer's admission is held up, a recv is abandoned after k polls: the closed peer is still released later, nothing is lost, SUB can still subscribe" },
+            Stratum { name: "rep_owed_reply", quick: 30_000, thorough: 1_500_000, exhaustive: (false, false), run: rep_owed_reply, what: "REP: with a reply owed, a further recv is abandoned after k polls: the owed reply is still accepted and reaches its requester" },
             Stratum { name: "req_abandon", quick: 60_000, thorough: (1_000_000) * 3, exhaustive: (false, false), run: req_abandon, what: "REQ protocol state after an abandoned recv" },
         ],
     }
